@@ -259,7 +259,7 @@ def main(tier):
         c._distinct.add("inner:%s:%s" % (o["wrapper"], o["inner"]))
     for pr in inner["problems"]:
         static.setdefault("C15:footprint:inner", dict(kind="footprint-tool", what="tools/footprint (inner analysis): " + str(pr), detail={"problems": inner["problems"]}))
-    for o in inner["violations"]:
+    for o in sorted(inner["violations"], key=lambda o: len((((o.get("writes") or []) + (o.get("unknown") or []))[0]).get("via", ""))):
         wtype = o["wrapper"].split(".")[0]
         ws = (o.get("writes") or []) + (o.get("unknown") or [])
         first = ws[0]
@@ -333,6 +333,17 @@ def main(tier):
     for r in races:
         base, loc, texts = location_of_race(r, ov or {}, derived)
         sig = "C15:%s:%s" % (base, loc if loc else "|".join(r["workload"].split("|")[1:3]))
+        if not texts:
+            # both accesses are outside the instrumented files (inside a foreign container / package-level state)
+            texts = ["%s (%s:%d)" % (fr[0].split("/")[-1], os.path.basename(fr[1]), fr[2]) for (_, fr) in r["frames"] if fr]
+            cands = [s for s, i in static.items() if i["kind"] == "inner-write" and s.split(":")[1] == base]
+            if not loc and len(cands) == 1:
+                sig = cands[0]  # the witness of the statically found write inside the inner container
+        if not loc:
+            for s_, i_ in static.items():  # a race on statically found package-level state: one signature
+                if i_["kind"] == "pkgvar" and any(re.search(r"\b%s\b" % re.escape(i_["detail"]["var"].rsplit(".", 1)[1]), t) for t in texts):
+                    sig = s_
+                    break
         dyn.setdefault(sig, []).append(dict(r, statements=texts))
     for sig, rs in dyn.items():
         r = rs[0]
